@@ -75,6 +75,22 @@ def classify_abort(res):
     return "ABORT:rc=%s" % res.rc, (err[-300:] or "no stderr")
 
 
+def context_features(w, v):
+    """Features of the case that the open known findings need; a violation of the same rule without them is a different class."""
+    text = w.get("text") or ""
+    opts = w["opts"]
+    f = []
+    if v.rule == "POP_EMPTY":
+        if "\nsendto" in text:
+            f.append("sendto")
+        if any(k in text for k in ("\nhostoff", "\nlinkoff", "\nP H ", "\nP K ")):
+            f.append("failures")
+    elif v.key.startswith("TIME_BACKWARDS:late=") and "Variable" in v.key:
+        if tracegen.has(opts, "tracing/uncategorized") or tracegen.has(opts, "tracing/categorized"):
+            f.append("utilization")
+    return (":ctx=" + "+".join(f)) if f else ""
+
+
 class Runner:
     def __init__(self, ctx):
         self.ctx = ctx
@@ -112,8 +128,8 @@ class Runner:
                     ctx.count("runs.dies_without_tracing_too")
                     return None
             ctx.count("runs.aborted")
-            if cls == "SIGSEGV" or cls.startswith("SAN:"):
-                # message-less crash: key it by the known-finding triggers present in the case (none = a new class)
+            if "TracingError" not in cls:
+                # crash without a specific message: key it by the known-finding triggers present in the case (none = a new class)
                 cls += ":triggers=" + ("+".join(witness.get("triggers") or []) or "none")
             ctx.violation("C47:%s:%s" % (kind, cls), "%s run with %s did not finish (rc=%s): %s" % (kind, " ".join(witness["opts"]), res.rc, line),
                           dict(witness, stderr_tail=(res.err or "")[-1500:]))
@@ -135,6 +151,8 @@ class Runner:
         seen = set()
         for v in rep.violations:
             key = "C47:%s:%s" % (kind, v.key)
+            if v.rule in ("POP_EMPTY", "TIME_BACKWARDS"):
+                key += context_features(witness, v)
             if key in seen:
                 continue
             seen.add(key)
@@ -161,6 +179,7 @@ class Runner:
             # raw contexts + exceptions under ASan = report inside the sanitizer's own sigaltstack interceptor (not SimGrid's)
             cmd.append("--cfg=contexts/factory:thread")
         res = proc.run(cmd, stdin=text, timeout=300)
+        self.ctx.count("runs.flavour." + flavour)
         w = {"kind": "s4u", "text": text, "opts": list(opts), "flavour": flavour, "triggers": tracegen.triggers_in(text, opts)}
 
         def baseline():
@@ -207,26 +226,49 @@ def gen_mpi(rng, opts, tame):
             "nops": rng.choice([4, 8, 12, 20]), "mask": rng.choice([127, 127, 127 - 16, 1 + 4 + 64, 2 + 4, 127 - 64])}
 
 
-# Directed cases: minimal witnesses of the known findings plus a few fixed well-formed scenarios (always run).
+# Directed cases: the minimal witness of every open known finding (so that each KNOWN-FINDING line is deterministic and
+# disappears with its fix) plus fixed well-formed scenarios.
 D_PLAT2 = "Z za -\nH za h0 1 2 1000000000.0 500000000.0\nH za h1 1 1 1000000000.0\nL za l0 100000000.0 0.001 S\nR za h0 h1 1 l0 N\nSEAL za\nX\n"
+D_TWOZ = ("Z za -\nH za h0 1 1 1000000000.0\nGW za h0\nZ zb -\nH zb h1 1 1 1000000000.0\nGW zb h1\nSEAL za\nSEAL zb\n"
+          "L - l_bb 1.25e8 1e-3 S\nZR - za zb 1 l_bb N\nX\n")
 DIRECTED_S4U = [
     # (name, text, opts)
     ("late-actor-creation", D_PLAT2 + "script 0 h0 1 0 -1 0\nsleep 1\ncreate 1\nsleep 1\nscript 1 h1 0 0 -1 0\nsleep 1\nend\n",
      ["tracing/actor:yes"]),
-    ("actor-exit-during-exec-uncat", D_PLAT2 + "script 0 h0 1 0 -1 0\nexec 4000000000.0 -\nscript 1 h1 1 0 -1 0\nsleep 1\nend\n",
+    ("killed-actor-during-exec-uncat", D_PLAT2 + "script 0 h0 1 0 -1 0\nexec 4000000000.0 -\nscript 1 h1 1 0 1.0 0\nsleep 3\nend\n",
      ["tracing/actor:yes", "tracing/uncategorized:yes"]),
     ("sendto-from-actor", D_PLAT2 + "script 0 h0 1 0 -1 0\nsendto h0 h1 1000000.0\nend\n", ["tracing/actor:yes"]),
+    ("comm-matched-on-dead-link", D_PLAT2 + "script 0 h0 1 0 -1 0\nput mb 1000000.0 - 5.0\nsleep 1\nscript 1 h1 1 0 -1 0\nsleep 1\nget mb 5.0\n"
+     "sleep 1\nscript 2 h1 1 0 -1 0\nsleep 0.5\nlinkoff l0\nend\n", ["tracing/actor:yes"]),
     ("pstate-actor-only", D_PLAT2 + "script 0 h0 1 0 -1 0\nsleep 1\npstate h0 1\nsleep 1\nend\n", ["tracing/actor:yes"]),
+    ("pstate-disable-power", D_PLAT2 + "script 0 h0 1 0 -1 0\nsleep 1\npstate h0 1\nsleep 1\nend\n",
+     ["tracing/uncategorized:yes", "tracing/disable_power:yes"]),
     ("setbw-actor-only", D_PLAT2 + "script 0 h0 1 0 -1 0\nsleep 1\nsetbw l0 50000000.0\nsleep 1\nend\n", ["tracing/actor:yes"]),
     ("categorized-only", D_PLAT2 + "cat c0 -\nscript 0 h0 1 0 -1 0\nexec 1000000000.0 c0\nend\n", ["tracing/categorized:yes"]),
-    ("maestro-exec", D_PLAT2 + "M exec h0 1000000000.0 -\nscript 0 h1 1 0 -1 0\nsleep 2\nend\n", ["tracing/actor:yes"]),
     ("maestro-sendto", D_PLAT2 + "M sendto h0 h1 1000000.0 -\nscript 0 h1 1 0 -1 0\nsleep 2\nend\n", ["tracing/actor:yes"]),
-    ("vm-start", D_PLAT2 + "script 0 h0 1 0 -1 0\nvmcreate vm0 h1 1\nvmstart vm0\nsleep 1\nvmdestroy vm0\nend\n",
-     ["tracing/vm:yes", "tracing/platform:yes"]),
+    ("vm-tracing", D_PLAT2 + "script 0 h0 1 0 -1 0\nsleep 1\nend\n", ["tracing/vm:yes"]),
+    ("router", "Z za -\nH za h0 1 1 1000000000.0\nRT za r0\nL za l0 100000000.0 0.001 S\nR za h0 r0 1 l0 N\nSEAL za\nX\n"
+     "script 0 h0 1 0 -1 0\nsleep 1\nend\n", ["tracing/platform:yes"]),
+    ("sibling-zones-topology", D_TWOZ + "script 0 h0 1 0 -1 0\nsleep 1\nend\n", ["tracing/platform:yes"]),
+    ("migrate-across-levels", D_TWOZ + "script 0 h0 1 0 -1 0\nsleep 1\nmigrate h1\nsleep 1\nend\n",
+     ["tracing/actor:yes", "tracing/platform/topology:no"]),
+    ("migrate-across-levels-2", D_TWOZ + "script 0 h0 1 0 -1 0\nsleep 1\nmigrate h1\nsleep 1\nscript 1 h1 1 0 -1 0\nsleep 3\nend\n",
+     ["tracing/actor:yes", "tracing/platform/topology:no"]),
+    ("autorestart-killed-twice", D_PLAT2 + "script 0 h0 1 0 -1 1\nsleep 10\nscript 1 h1 1 0 -1 0\nsleep 1\nhostoff h0\nhoston h0\nsleep 1\n"
+     "hostoff h0\nhoston h0\nend\n", ["tracing/actor:yes"]),
+    # well-formed ones
+    ("maestro-exec", D_PLAT2 + "M exec h0 1000000000.0 -\nscript 0 h1 1 0 -1 0\nsleep 2\nend\n", ["tracing/actor:yes"]),
     ("plain-uncat", D_PLAT2 + "script 0 h0 1 0 -1 0\nexec 1000000000.0 -\nput mb 1000000.0 - 5.0\nscript 1 h1 1 0 -1 0\nget mb 5.0\nexec 500000000.0 -\nend\n",
      ["tracing/uncategorized:yes"]),
     ("plain-platform", D_PLAT2 + "markt mk\nmarkv mk a -\nhvar hv0 -\nscript 0 h0 1 0 -1 0\nsleep 1\nmark mk a\nhvar set h1 hv0 2.0\nsleep 1\nhvar add h1 hv0 1.0\nend\n",
      ["tracing/platform:yes"]),
+    ("actors-flat", D_PLAT2 + "script 0 h0 1 0 -1 0\nexec 1000000000.0 -\nmigrate h1\nput mb 1000000.0 - 5.0\nsleep 1\nscript 1 h1 1 0 -1 0\nget mb 5.0\n"
+     "suspend 0\nsleep 0.5\nresume 0\nend\n", ["tracing/actor:yes"]),
+]
+DIRECTED_MPI = [
+    ({"plat": 1, "np": 2, "seed": 1, "nops": 2, "mask": 2}, ["tracing/smpi:yes", "tracing/uncategorized:yes"]),          # cluster = router
+    ({"plat": 0, "np": 3, "seed": 7, "nops": 6, "mask": 1 + 2 + 4 + 64}, ["tracing/smpi:yes", "tracing/uncategorized:yes"]),  # late utilization
+    ({"plat": 0, "np": 4, "seed": 3, "nops": 12, "mask": 127}, ["tracing/smpi:yes", "tracing/smpi/internals:yes", "tracing/smpi/computing:yes"]),
 ]
 
 
@@ -265,6 +307,8 @@ def run(ctx):
             jobs.append(("s4u", sc["text"], opts, "hooks", "s4u"))
             if i % 10 == 0:
                 jobs.append(("s4u", sc["text"], opts, "asan", "s4u"))
+        for m, opts in DIRECTED_MPI:
+            jobs.append(("mpi", m, opts))
         for i in range(n_mpi):
             rng = ctx.sub_rng("mpi", i)
             opts = tracegen.gen_mpi_options(rng)
